@@ -17,7 +17,9 @@ VARIABLES envs, progs, hist, out
 vars == <<envs, progs, hist, out>>
 Runners == {"I", "C"}
 Decls == {"none", "dotted", "xint", "pkg"}
-Exprs == {"const", "var", "dotref", "macro", "has", "cond"}
+Exprs == {"const", "var", "dotref", "macro", "has", "cond", "sizeplain", "sizeov", "twiceplain", "twiceov"}
+\* sizeplain / twiceplain: size("h\u00e9llo") and twice(21) in a program built WITHOUT application functions;
+\* sizeov / twiceov: the same texts in a program built with functions = [size (UTF-8 octets, overriding the built-in), twice]
 Bindings == {"empty", "x1", "xneg", "ab7", "ab8x2", "mf", "amap"}
 I(n) == IntV(FromInt(n))
 nA == <<97>>  nB == <<98>>  nM == <<109>>  nF == <<102>>  nX == <<120>>
@@ -44,6 +46,10 @@ Outcome(d, e, b) ==
     [] e = "dotref" -> Ref(d, bs, <<nA, nB>>)
     [] e = "macro" -> Eval(Macro("map", Lit(List(<<I(1), I(2)>>)), "x", Bin("+", X, Lit(I(1)))), env)
     [] e = "has" -> (IF IsBound(bs, <<nM>>) THEN Eval(Has(Var("m"), nF), env) ELSE Indef)
+    [] e = "sizeplain" -> I(5)                 \* the built-in: code points
+    [] e = "sizeov" -> I(6)                    \* this program's own function
+    [] e = "twiceplain" -> Err                 \* no such function in THIS program, whatever other programs were given
+    [] e = "twiceov" -> I(42)
     [] e = "cond" -> (LET x == Ref(d, bs, <<nX>>) IN IF IsIndef(x) THEN Indef ELSE IF IsErr(x) THEN Err
                       ELSE Eval(CondE(Bin(">", X, Lit(I(0))), Lit(Str(<<112>>)), Lit(Str(<<110>>))), env))
 None == [t |-> "none"]
